@@ -22,7 +22,8 @@ def visible(g, m, name):
 def imports(g, m):
     imp = [tuple(x) for x in g["imp"][m]]
     if m == "main":
-        imp.append(("pb", "b"))
+        if g.get("mainb", True):
+            imp.append(("pb", "b"))
         if g["hasc"]:
             imp.append(("pc", "c"))
     return imp
@@ -60,18 +61,24 @@ def render(g, order=0):
         if g["f"][m] != "none":
             out.append("%sfn f() { hist.push(1); println(\"%s.f\", x, hist.len()); h(); }" % ("pub " if g["f"][m] == "pub" else "", m))
         sees_f = visible(g, m, "f")
+        other = ""
+        if m == "b" and visible(g, m, "pc"):
+            other = "pc(); "
+        if m == "c" and visible(g, m, "pb"):
+            other = "pb(); "
         if bare:
-            out.append("pub fn pc() { println(\"c.p bare\"); %sh(); }" % ("f(); " if sees_f else ""))
+            out.append("pub fn pc() { println(\"c.p bare\"); %s%sh(); }" % ("f(); " if sees_f else "", other))
             out.append("pub fn main() { println(\"c.main\"); }")
         elif m in ("b", "c"):
-            out.append("pub fn p%s() { println(\"%s.p\", x, hist.len()); %sh(); }" % (m, m, "f(); " if sees_f else ""))
+            out.append("pub fn p%s() { println(\"%s.p\", x, hist.len()); %s%sh(); }" % (m, m, "f(); " if sees_f else "", other))
             # a library's own main (pub when its x is pub) is never run: only the entry module's main is
             out.append("%sfn main() { println(\"%s.main\"); }" % ("pub " if g["x"][m] == "pub" else "", m))
         else:
             body = []
             if sees_f:
                 body.append("f();")
-            body.append("pb();")
+            if g.get("mainb", True):
+                body.append("pb();")
             if g["hasc"]:
                 body.append("pc();")
             body.append("h();")
